@@ -21,12 +21,15 @@
                                                 lexes to the query's tokens
      automatic head/tail     C11_aht_modulo_lexing  proved: whenever the printed result lexes to the query's tokens
                              C11_aht_total          never raises on a parsed query
-     resolution, open ranges validated by the correspondence and the oracle only (harness/c11.py), apart from the
-                             refutations above
+     resolution              C11_resolve_no_unknown_partial  proved: with no implicit operation in the query the
+                                                resolver (any target, any add_head) IS the default copy
+     resolution (general), open ranges   validated by the correspondence and the oracle only (harness/c11.py),
+                             apart from the refutations above
      "same meaning" is well defined   C11_meaning_respects_equality (luqum ==, layout erasure) *)
 Require Import Base Decimal Tree TreeEq GenTree Eq EqSpec Print TreeInd GenParser Lexer Actions LR Parser Erase.
 Require Import Traverse Resolver OpenRange AutoHeadTail Meaning.
 Require Import EqProofs LRProofs LayoutProofs TraverseProofs AutoHeadTailProofs PrettyProofs MeaningProofs C01.
+Require Import MeaningResolverProofs.
 
 (* ---------------------------------------------------------------- the statement *)
 
@@ -266,6 +269,34 @@ Proof.
   apply (parse_ops_nonempty s). exact Hp.
 Qed.
 
+(* ---------------------------------------------------------------- what holds: the resolver with nothing to resolve *)
+
+(* on a query without implicit operation the resolver (every target, the Lucene-like mode, ANY add_head) is the
+   default copy, so it satisfies the statement under the copy's guard *)
+Definition C11_resolve_no_unknown_partial_statement : Prop :=
+  forall s t tg ah t', parse s = Some (Ok t) -> no_event s -> no_unknown t -> valid_target tg = true ->
+    resolve tg ah t = Some t' ->
+    copy t = Some t' /\ print true t' = s /\ reprints_same_meaning t'.
+Theorem C11_resolve_no_unknown_partial : C11_resolve_no_unknown_partial_statement.
+Proof.
+  intros s t tg ah t' Hp Hne Hnu Hv Hr. rewrite (resolve_no_unknown_is_copy tg ah t Hv Hnu) in Hr.
+  destruct (C11_copy_partial s t t' Hp Hne Hr) as [Hs [t2 [H2 [_ [_ [_ Hm]]]]]].
+  split; [exact Hr|]. split; [exact Hs|]. exists t2. auto.
+Qed.
+
+(* C01.ex_query has explicit operators and an implicit one; "f:(a OR b) AND NOT c~2" has none *)
+Definition ex_explicit : str :=
+  [102;58;40;97;32;79;82;32;98;41;32;65;78;68;32;78;79;84;32;99;126;50]%N.
+Example C11_resolve_no_unknown_nonvacuous :
+  no_event ex_explicit /\
+  exists t, parse ex_explicit = Some (Ok t) /\ no_unknown t /\ 5 <= size_of t /\
+            resolve None blank t = copy t /\ c11_verdict (TResolve (Some KOr) blank) t = VSame.
+Proof.
+  split; [vm_compute; reflexivity|]. eexists. split; [vm_compute; reflexivity|].
+  split; [apply no_unknownb_ok; vm_compute; reflexivity|].
+  split; [vm_compute; repeat constructor|]. split; vm_compute; reflexivity.
+Qed.
+
 (* ---------------------------------------------------------------- non-vacuity *)
 
 (* the guard of C11_copy_partial holds of a query using most productions (C01.ex_query) and the conclusion
@@ -348,6 +379,7 @@ Print Assumptions C11_verdict_is_statement.
 Print Assumptions C11_parsed_wellformed.
 Print Assumptions C11_copy_partial.
 Print Assumptions C11_copy_total.
+Print Assumptions C11_resolve_no_unknown_partial.
 Print Assumptions C11_equal_tree_modulo_lexing.
 Print Assumptions C11_copy_modulo_lexing.
 Print Assumptions C11_aht_modulo_lexing.
